@@ -75,6 +75,8 @@ class VertexList:
                         # a point that belongs to a slave patch
                         # has been found but we need one for a 'master' patch
                         raise VertexNotFoundError
+
+                self._add_projections(vertex, point)
             except VertexNotFoundError:
                 vertex = Vertex.from_point(point, len(self.vertices))
                 self.vertices.append(vertex)
@@ -84,12 +86,23 @@ class VertexList:
         # scenario 3: slave_patches is not None
         try:
             vertex = self.find_duplicated(point.position, slave_patches)
+            self._add_projections(vertex, point)
         except VertexNotFoundError:
             vertex = Vertex.from_point(point, len(self.vertices))
             self.vertices.append(vertex)
             self.duplicated.append(DuplicatedEntry(vertex, slave_patches))
 
         return vertex
+
+    @staticmethod
+    def _add_projections(vertex: Vertex, point: Point) -> None:
+        """A re-used vertex is also projected to whatever this point is projected to
+        (the operation that created the vertex may not have projected its corner)"""
+        missing = [label for label in point.projected_to if label not in vertex.projected_to]
+
+        if missing:
+            # a new list: the old one is shared with the point the vertex was created from
+            vertex.projected_to = [*vertex.projected_to, *missing]
 
     def clear(self) -> None:
         """Empties all lists"""
